@@ -30,8 +30,10 @@ impl Family for C09 {
       1 => {}
       _ => script.push(Step::C),
     }
-    let source = *rng.pick(&["cold", "threaded", "threaded-checking", "threaded", "subject"]);
-    let shape = if source == "subject" { *rng.pick(&["oo", "oo,oo", "m,oo", "oo,m", "m,oo,m,oo"]) } else { *rng.pick(SHAPES) };
+    // "two-threads": two emitter threads merged in front of the pipeline (their first events may
+    // reach the scheduler at the same instant)
+    let source = *rng.pick(&["cold", "threaded", "threaded-checking", "threaded", "subject", "two-threads"]);
+    let shape = if source == "subject" || source == "two-threads" { *rng.pick(&["oo", "oo,oo", "m,oo", "oo,m", "m,oo,m,oo"]) } else { *rng.pick(SHAPES) };
     Json::obj(vec![
       ("script", script_to_json(&script)),
       // "subject": a real Subject fed by the caller; the subscriber's callback of item `reenter_at`
@@ -70,8 +72,11 @@ impl Family for C09 {
       return RunOut::invalid();
     }
     let source_mode = w.s("source");
-    if !["cold", "threaded", "threaded-checking", "subject"].contains(&source_mode.as_str()) {
+    if !["cold", "threaded", "threaded-checking", "subject", "two-threads"].contains(&source_mode.as_str()) {
       return RunOut::invalid();
+    }
+    if source_mode == "two-threads" {
+      return exec_two_threads(w, cfg, &script, &shape);
     }
     if source_mode == "subject" {
       return exec_subject(w, cfg, &script, &shape);
@@ -404,5 +409,97 @@ fn exec_subject(w: &Json, cfg: RunCfg, script: &[Step], shape: &[String]) -> Run
     fp = fp.wrapping_mul(0x100000001B3) ^ fnv(h.split_whitespace().skip(1).collect::<Vec<_>>().join(" ").as_str());
   }
   let reach = vec![("c09-reentrant-push-happened", pushes.iter().any(|p| p.3 != 0) as u64)];
+  RunOut { res, violations: v, fingerprint: fp, invalid: false, reach, history }
+}
+
+
+/// Two emitter threads merged in front of the pipeline. Oracle: every item of both emitters exactly
+/// once, each emitter's items in its order, the completion last (both emitters complete), callbacks
+/// never overlap and all run on one scheduler worker.
+fn exec_two_threads(w: &Json, cfg: RunCfg, script: &[Step], shape: &[String]) -> RunOut {
+  if shape.iter().rev().find(|s| *s != "m").map(|s| s.as_str()) != Some("oo") || shape.iter().any(|s| s == "so") {
+    return RunOut::invalid();
+  }
+  let n_maps = shape.iter().filter(|s| *s == "m").count() as i64;
+  let items_a: Vec<i64> = script.iter().filter_map(|s| if let Step::N(x) = s { Some(*x) } else { None }).collect();
+  let items_b: Vec<i64> = items_a.iter().map(|x| x + 50).collect();
+  let mk = |items: &[i64]| -> Vec<Step> {
+    let mut s: Vec<Step> = items.iter().map(|x| Step::N(*x)).collect();
+    s.push(Step::C);
+    s
+  };
+  let (sa, sb) = (mk(&items_a), mk(&items_b));
+  let rec = Recorder::with_probes(w.i("cb_probes").clamp(0, 3) as u32);
+  let src_log = Arc::new(Mutex::new(SrcLog::default()));
+  let (rec2, sl, shape2) = (rec.clone(), src_log.clone(), shape.to_vec());
+  let res = rt::run(cfg, move || {
+    let handles = Arc::new(Mutex::new(Vec::new()));
+    let a = threaded_source("source-a", sa, sl.clone(), false, vec![], handles.clone());
+    let b = threaded_source("source-b", sb, sl.clone(), false, vec![], handles.clone());
+    let mut o = a.merge(&[b]);
+    for st in &shape2 {
+      o = match st.as_str() {
+        "oo" => o.observe_on(schedulers::new_thread_scheduler()),
+        _ => o.map(|v: Val| Val::Int(v.int() + 100)),
+      };
+    }
+    let _sub = rec2.subscribe(&o);
+    rt::quiesce();
+    let hs: Vec<_> = std::mem::take(&mut *handles.lock().unwrap());
+    for h in hs {
+      let _ = h.join();
+    }
+    rt::quiesce();
+  });
+  let blame = "observe_on";
+  let evs = rec.events();
+  let mut v = Vec::new();
+  let mut history: Vec<String> = Vec::new();
+  for e in src_log.lock().unwrap().emits.iter() {
+    history.push(format!("{:>4}..{:<4} t{} source emits {}", e.seq_start, e.seq_end, e.task, e.step.show()));
+  }
+  for r in &evs {
+    history.push(format!("{:>4}..{:<4} t{} subscriber gets {}", r.seq_in, r.seq_out, r.task, r.ev.show()));
+  }
+  history.sort();
+  let library_tasks: Vec<usize> = res.tasks.iter().filter(|t| t.origin == Origin::Library).map(|t| t.id).collect();
+  match &res.outcome {
+    rt::Outcome::Ok | rt::Outcome::Leak { .. } => {}
+    _ => v.push(outcome_violation(&res, blame).unwrap()),
+  }
+  if v.is_empty() {
+    let shown = evs.iter().map(|r| r.ev.show()).collect::<Vec<_>>().join(" ");
+    let got: Vec<i64> = evs.iter().filter_map(|r| if let Ev::Next(x) = &r.ev { Some(x.int() - 100 * n_maps) } else { None }).collect();
+    for (name, items) in [("a", &items_a), ("b", &items_b)] {
+      let mine: Vec<i64> = got.iter().filter(|x| items.contains(x)).copied().collect();
+      if mine != **items {
+        let class = if mine.len() < items.len() { "events-lost" } else { "events-differ" };
+        v.push(Violation::new(class, blame, format!("emitter {} emitted {:?}; of those the subscriber received {:?}: [{}]", name, items, mine, shown)));
+      }
+    }
+    if got.len() != items_a.len() + items_b.len() {
+      v.push(Violation::new("events-differ", blame, format!("two emitters emitted {} items in all, the subscriber received {}: [{}]", items_a.len() + items_b.len(), got.len(), shown)));
+    }
+    let terms = evs.iter().filter(|r| r.ev.is_terminal()).count();
+    if terms != 1 || evs.last().map(|r| r.ev.clone()) != Some(Ev::Complete) {
+      v.push(Violation::new(if terms == 0 { "events-lost" } else { "events-differ" }, blame, format!("both emitters completed; the subscriber received [{}]", shown)));
+    }
+    let mut iv: Vec<(u64, u64)> = evs.iter().map(|r| (r.seq_in, r.seq_out)).collect();
+    iv.sort();
+    for w2 in iv.windows(2) {
+      if w2[0].1 > w2[1].0 {
+        v.push(Violation::new("callbacks-overlap", blame, format!("callback [{}..{}] overlaps callback [{}..{}]: [{}]", w2[0].0, w2[0].1, w2[1].0, w2[1].1, shown)));
+      }
+    }
+    let cb_tasks: std::collections::BTreeSet<usize> = evs.iter().map(|r| r.task).collect();
+    if cb_tasks.len() > 1 || cb_tasks.iter().any(|t| !library_tasks.contains(t)) {
+      v.push(Violation::new("wrong-thread", blame, format!("callbacks ran on tasks {:?} (scheduler workers {:?})", cb_tasks, library_tasks)));
+    }
+  }
+  let mut fp = 0u64;
+  for h in &history {
+    fp = fp.wrapping_mul(0x100000001B3) ^ fnv(h.split_whitespace().skip(1).collect::<Vec<_>>().join(" ").as_str());
+  }
+  let reach = vec![("c09-two-emitter-threads", 1u64)];
   RunOut { res, violations: v, fingerprint: fp, invalid: false, reach, history }
 }
